@@ -38,6 +38,8 @@ def _run_one(args):
             return (name, 'killed', '%s: %s' % (hit[0].rule, hit[0].message[:160]))
         if fails:
             return (name, 'killed-other', '%s: %s' % (fails[0].rule, fails[0].message[:160]))
+        if rep.deficits:
+            return (name, 'analysis-error', rep.deficits[0][:200])
         return (name, 'survived', '')
     except Exception:
         return (name, 'crash', traceback.format_exc()[-300:])
